@@ -188,6 +188,10 @@ def schema_env_for_graph(deps, kinds):
 # ---------------------------------------------------------------------------
 # running prophyc
 # ---------------------------------------------------------------------------
+INTERNAL_BASES = ("ValueError", "KeyError", "LookupError", "AttributeError", "TypeError", "IndexError", "AssertionError",
+                  "RecursionError", "RuntimeError", "NameError", "ArithmeticError", "MemoryError", "OSError", "UnicodeError")
+
+
 class Watchdog(BaseException):
     """raised by the SIGALRM handler of a worker; never swallowed"""
 
@@ -214,7 +218,12 @@ def run_main(argv):
         import prophyc.model as pm
         if isinstance(e, pm.ModelError) or type(e) is Exception:
             return "diagnostic", "%s: %s" % (type(e).__name__, str(e)[:500]), err.getvalue()
-        return "internal", "%s: %s" % (type(e).__name__, str(e)[:500]), err.getvalue()
+        # subclasses count as what they are: UnicodeDecodeError is a ValueError,
+        # IsADirectoryError an OSError
+        name = type(e).__name__
+        base = next((b.__name__ for b in type(e).__mro__[1:] if b.__name__ in INTERNAL_BASES), None)
+        label = "%s<%s>" % (name, base) if base else name
+        return "internal", "%s: %s" % (label, str(e)[:500]), err.getvalue()
 
 
 def run_cli(argv, cwd=None, env=None, timeout=60):
